@@ -19,7 +19,8 @@ THEOREMS = ["C10_invalid_disconnects_sender_only", "C10_invalid_sender_gone_othe
             "C10_invalid_bytes_invisible", "C10_isolation_bytes", "C10_valid_prefix", "C10_isolation", "C10_preauth_silent", "C10_incomplete_bounded",
             "C10_accept_gate", "C10_setup_assertion_holds", "C10_env_run_is_run", "C10_loader_nothing_after_corruption",
             "C10_close_cleans_up", "C10_owned_covers_reachable", "C10_close_releases_slot", "C10_close_frame",
-            "C10_close_outputs_prescribed", "C10_no_error_to_departed", "C10_expiry_exact"]
+            "C10_close_outputs_prescribed", "C10_no_error_to_departed", "C10_expiry_exact",
+            "C10_activation_failure_only_to_connected", "C10_no_activation_error_to_departed", "C10_activation_success_only_to_connected"]
 
 NWORKERS = min(6, max(2, (os.cpu_count() or 4) // 2))
 
@@ -71,7 +72,7 @@ def worker(args):
         for idx, s, line in batch:
             if nbad >= 6:
                 break            # a daemon this broken needs no more evidence; every missing effect costs a 5 s wait
-            attempts = 2 if s["cfg"]["auth_timeout"] < 60000 else 1
+            attempts = 2 if (s["cfg"]["auth_timeout"] < 60000 or s.get("timed")) else 1
             res = None
             for attempt in range(attempts):
                 try:
@@ -107,7 +108,9 @@ def worker(args):
                                 "DIED" if (not alive or rc not in (0, None)) else "complained", rc, " | ".join(bad[:4]) or err[-300:])))
                     bus = None
                     # only pure timing mismatches are worth another attempt
-                    if all(k in ("mismatch", "late") for k, _ in res["problems"]) and attempt + 1 < attempts:
+                    soft = all(k in ("mismatch", "late") for k, _ in res["problems"]) or (
+                        s.get("timed") and not any(x in t for _, t in res["problems"] for x in ("DIED", "died", "no longer answers", "not answered", "AddressSanitizer")))
+                    if soft and attempt + 1 < attempts:
                         continue
                     # an unregistered connection that is still there 5 s after its deadline, on every attempt, is no timing artefact
                     res["problems"] = [("violation" if k == "late" else k, t) for k, t in res["problems"]]
@@ -139,8 +142,8 @@ def run(ctx):
                 if f.endswith(".json"):
                     scripts += json.load(open(os.path.join(cdir, f)))
         n_plain, n_flood, n_timed, n_blast = (1800, 16, 18, 10) if tier == "quick" else (16000, 160, 220, 80)
-        n_close, n_slots = (60, 24) if tier == "quick" else (1500, 500)
-        gen = rg.generate(rnd, n_plain, n_flood, n_timed, n_blast, n_close, n_slots)
+        n_close, n_slots, n_act = (60, 24, 30) if tier == "quick" else (1500, 500, 400)
+        gen = rg.generate(rnd, n_plain, n_flood, n_timed, n_blast, n_close, n_slots, n_act)
         if tier != "quick":
             big = rg.gen_quota(rnd, n=34000, cfg=rg.CFG_MAIN)      # the same with the DEFAULT max_outgoing_bytes (127 MiB)
             big["kind"] = "quota:default-limit"
@@ -166,7 +169,7 @@ def run(ctx):
             part = items[j::k]
             if part:
                 jobs.append((info["daemon"], cfg, part))
-    jobs.sort(key=lambda j: -len(j[2]) * (50 if j[1]["auth_timeout"] < 60000 else 1))
+    jobs.sort(key=lambda j: -len(j[2]) * (50 if (j[1]["auth_timeout"] < 60000 or j[1].get("services")) else 1))
     with multiprocessing.Pool(min(len(jobs), NWORKERS + 2) or 1) as pool:
         outs = pool.map(worker, jobs, chunksize=1)
     results, daemons = {}, []
@@ -191,6 +194,8 @@ def run(ctx):
             stats["known_finding_scripts"] = stats.get("known_finding_scripts", 0) + 1
             continue
         st = res.get("stats", {})
+        if s["kind"] == "hand:act-eof-delay" and not res["problems"] and st.get("eof_wait_max", 0) > 0.5 and "C10-D2" in known:
+            rep.known(known["C10-D2"], {"script": s["kind"], "eof_after_s": round(st["eof_wait_max"], 3)})
         for k in ("seen", "gone", "hi"):
             stats[k] += st.get(k, 0)
         stats["lat_max"] = max(stats["lat_max"], st.get("lat_max", 0.0))
@@ -242,6 +247,9 @@ def run(ctx):
                 "abrupt close (plain / invalid stream / monitor that sends) with outstanding state — pending calls to itself by unique and by owned name, answered or flagged no-reply, "
                 "to and from others, names owned with others queued and the reverse, match rules, being a monitor, a half-written message, an unread queue — each on a daemon of "
                 "its own (unique names predictable: NameOwnerChanged and NoReply compared with the model, daemon exit status and sanitizer log judged per script); "
+                "activations in progress at the moment of close (service files: Exec exits 1 after 300 ms / never claims its name with service_start_timeout 900 ms / name claimed "
+                "by a connection of the script): 1-4 requesters by auto-starting calls with and without reply expected, directed signals, NO_AUTO_START, StartServiceByName; "
+                "first / some / all requesters close before the outcome; the error or success replies (requester, serial) are compared with the model; "
                 "registration / match-rule accounting (max_connections_per_user = bystanders + 3, max_match_rules_per_connection = 4): refusals at the limit, success once "
                 "somebody has left by close / invalid stream / as a monitor that closes, a monitor keeping its slot; "
                 "hand-written boundary scenarios. non-trivial = the model disconnects somebody or dispatches more than one hostile message",
